@@ -5,7 +5,7 @@ capacity 0..3), driven with hand-framed ``/init`` and ``/exchange`` requests; th
 ``_state_token`` / ``_app_stream`` is a virtual clock (token ttl = 10 s).
 
 Events (the transition labels of the explored graph):
-  init(s, w)            stream slot s (fixed identity per slot: A, B, A) is initialised on worker w (once per slot)
+  init(s, w)            stream slot s (fixed identity per slot, e.g. A, B, A) is initialised on worker w (once per slot)
   cont(s, w, variant)   the next continuation of stream s is sent to worker w; the call token presented is
                         echo (the genuine one) | omit | tamper (one tag bit flipped) | other (the genuine call token
                         of the next initialised slot) ; thorough adds xid (genuine tokens, presented by the identity
@@ -51,8 +51,9 @@ ENGINE = "E2-BFS"
 SHARDS = {"quick": 8, "thorough": 16}
 RULE = (
     "BFS over all histories of init/cont(echo|omit|tamper|other[|xid])/tick events for every fleet configuration: quick "
-    "2 workers x capacities {0,1,2}^2, 2 streams, depth 5; thorough 2 workers x {0..3}^2, 3 streams, 5 variants, depth 5 + "
-    "2 workers x {0,1,2}^2, 2 streams, depth 6 + three 3-worker fleets (2 streams depth 5, 3 streams depth 4); states "
+    "2 workers x capacities {0,1,2}^2, 2 streams (identities AB / AA alternating), depth 5; thorough 2 workers x {0..3}^2, "
+    "3 streams ABA, 5 variants, depth 5 + 2 workers x {0,1,2}^2 x {AB, AA}, depth 6 + three 3-worker fleets (AB depth 5, "
+    "ABA depth 4); states "
     "deduplicated on (token ages, positions, ordered cache contents); one evaluation per transition, non-trivial = "
     "distinct successor state"
 )
@@ -77,7 +78,7 @@ H = TTL // 2
 KEY = b"C14-shared-token-key-0123456789ab"[:32]
 A: T.Ident = ("corp", "alice")
 Bq: T.Ident = ("corp", "bob")
-SLOT_IDENT = [A, Bq, A]
+IDENT = {"A": A, "B": Bq}
 SUBJECT = "prod_c"
 T0 = 1_000_000.0
 REPLAY_EVERY = 4  # every 4th newly found state is re-derived by full history replay
@@ -114,7 +115,8 @@ class World:
         for w in self.workers:
             w.cache.clear()
         CLOCK.now = T0
-        self.slots: list[dict[str, Any] | None] = [None] * cfg["slots"]
+        self.idents: list[T.Ident] = [IDENT[c] for c in cfg["idents"]]
+        self.slots: list[dict[str, Any] | None] = [None] * len(self.idents)
         self.last: dict[str, Any] | None = None
         self.error: str | None = None
 
@@ -126,17 +128,17 @@ class World:
             CLOCK.advance(ev[1])
         elif kind == "init":
             _, s, w = ev
-            r = self.workers[w].init(SUBJECT, SLOT_IDENT[s], {"limit": 50, "base": 100 * (s + 1)})
+            r = self.workers[w].init(SUBJECT, self.idents[s], {"limit": 50, "base": 100 * (s + 1)})
             if r.status != 200 or r.cursor is None or r.call is None:
                 self.error = f"init failed: {r.outcome()}"
                 return
             self.slots[s] = {"cursor": r.cursor, "call": r.call, "pos": 1, "cursor_t": CLOCK.now, "call_t": CLOCK.now,
-                             "cid": call_id_of(r.cursor, SLOT_IDENT[s])}
+                             "cid": call_id_of(r.cursor, self.idents[s])}
         else:
             _, s, w, variant = ev
             sl = self.slots[s]
             assert sl is not None
-            ident = SLOT_IDENT[s]
+            ident = self.idents[s]
             call: bytes | None = sl["call"]
             if variant == "omit":
                 call = None
@@ -147,7 +149,7 @@ class World:
             elif variant == "other":
                 call = self.slots[other_slot(self.slots, s)]["call"]  # type: ignore[index]
             elif variant == "xid":
-                ident = SLOT_IDENT[xid_slot(s)]
+                ident = Bq if self.idents[s] == A else A
             body = T.turn_body(SUBJECT, sl["cursor"], call)
             T.EVENTS.clear()
             r = self.workers[w].post(f"/{SUBJECT}/exchange", body, ident)
@@ -165,10 +167,6 @@ def other_slot(slots: list[dict[str, Any] | None], s: int) -> int | None:
     return None
 
 
-def xid_slot(s: int) -> int:
-    return 1 if SLOT_IDENT[s] == A else 0
-
-
 def call_id_of(cursor: bytes, ident: T.Ident) -> bytes:
     """Instrument only (canonical state): the call id a cursor token names, via the real opener."""
     from vgi_rpc.http.server._state_token import _compute_aad
@@ -182,8 +180,18 @@ def call_id_of(cursor: bytes, ident: T.Ident) -> bytes:
         return cursor[:24]
 
 
+_EPOCH = [0]
+
+
+def fresh_entropy() -> None:
+    """New deterministic entropy epoch: call ids / nonces never repeat within a process (a repeated call id
+    would be a harness-made cache-key collision)."""
+    _EPOCH[0] += 1
+    T.ENTROPY.reset(f"c14/{_EPOCH[0]}")
+
+
 def build(cfg: dict[str, Any], hist: tuple[Any, ...]) -> World:
-    T.ENTROPY.reset("c14")
+    fresh_entropy()
     w = World(cfg)
     for ev in hist:
         w.apply(ev)
@@ -197,7 +205,7 @@ def enabled(world: World) -> list[tuple[Any, ...]]:
     for s, sl in enumerate(world.slots):
         if sl is None:
             # symmetry: slots with the same identity are interchangeable — initialise them in index order
-            if any(world.slots[k] is None and SLOT_IDENT[k] == SLOT_IDENT[s] for k in range(s)):
+            if any(world.slots[k] is None and world.idents[k] == world.idents[s] for k in range(s)):
                 continue
             for w in range(nw):
                 evs.append(("init", s, w))
@@ -259,7 +267,7 @@ def invariant(world: World, hist: tuple[Any, ...]) -> tuple[str, str] | None:
     sw, sc = summary(warm), summary(cold)
     v = last["variant"]
     wk = world.workers[last["worker"]]
-    where = (f"cont(stream {last['slot']} of {owner(SLOT_IDENT[last['slot']])}, worker {last['worker']} cap "
+    where = (f"cont(stream {last['slot']} of {owner(world.idents[last['slot']])}, worker {last['worker']} cap "
              f"{world.cfg['caps'][last['worker']]}, call token {v}) with call token aged {last['call_age']:.0f}s, cursor aged "
              f"{last['cursor_age']:.0f}s, ttl {TTL}: fleet worker -> {sw[:2]} {warm.error}; empty-cache worker -> {sc[:2]} {cold.error}")
     del wk
@@ -285,19 +293,22 @@ def invariant(world: World, hist: tuple[Any, ...]) -> tuple[str, str] | None:
 
 
 def configs(ctx: Ctx) -> list[dict[str, Any]]:
+    """``idents``: one letter per stream slot — which identity owns it."""
     out: list[dict[str, Any]] = []
     base = ["echo", "omit", "tamper", "other"]
     if ctx.quick:
-        for caps in itertools.product((0, 1, 2), repeat=2):
-            out.append({"caps": list(caps), "slots": 2, "depth": 5, "variants": base})
+        for n, caps in enumerate(itertools.product((0, 1, 2), repeat=2)):
+            # alternate two streams of distinct identities / of one identity (the latter lets `other` pass the AAD)
+            out.append({"caps": list(caps), "idents": "AB" if n % 2 == 0 else "AA", "depth": 5, "variants": base})
         return out
     for caps in itertools.product((0, 1, 2, 3), repeat=2):  # three streams (A, B, A), all five variants
-        out.append({"caps": list(caps), "slots": 3, "depth": 5, "variants": base + ["xid"]})
+        out.append({"caps": list(caps), "idents": "ABA", "depth": 5, "variants": base + ["xid"]})
     for caps in itertools.product((0, 1, 2), repeat=2):  # two streams, one level deeper
-        out.append({"caps": list(caps), "slots": 2, "depth": 6, "variants": base})
+        for idents in ("AB", "AA"):
+            out.append({"caps": list(caps), "idents": idents, "depth": 6, "variants": base})
     for caps in ((0, 1, 2), (1, 1, 1), (1, 2, 3)):  # three workers
-        out.append({"caps": list(caps), "slots": 2, "depth": 5, "variants": base})
-        out.append({"caps": list(caps), "slots": 3, "depth": 4, "variants": base + ["xid"]})
+        out.append({"caps": list(caps), "idents": "AB", "depth": 5, "variants": base})
+        out.append({"caps": list(caps), "idents": "ABA", "depth": 4, "variants": base + ["xid"]})
     return out
 
 
@@ -333,9 +344,9 @@ def restore(world: World, snap: Any) -> None:
 
 def explore(ctx: Ctx, ci: int, cfg: dict[str, Any]) -> dict[str, int]:
     """BFS with state restore; every new state is re-derived by full replay on emptied caches and must agree."""
-    label = f"caps={cfg['caps']}/slots={cfg['slots']}/d={cfg['depth']}"
+    label = f"caps={cfg['caps']}/idents={cfg['idents']}/d={cfg['depth']}"
     stats = {"states": 0, "transitions": 0, "max_depth": 0, "replay_validated": 0}
-    T.ENTROPY.reset("c14")
+    fresh_entropy()
     world = World(cfg)
     k0 = h((label, canon(world)))
     seen = {k0}
@@ -404,10 +415,9 @@ def replay(ctx: Ctx, case: dict[str, Any]) -> None:
     setup()
     label = case["harness"]
     caps = json.loads(label.split("caps=")[1].split("/")[0])
-    slots = int(label.split("slots=")[1].split("/")[0])
+    idents = label.split("idents=")[1].split("/")[0]
     hist = tuple(tuple(e) for e in case["history"])
-    variants = ["echo", "omit", "tamper", "other", "xid"]
-    w = build({"caps": caps, "slots": slots, "variants": variants}, hist)
+    w = build({"caps": caps, "idents": idents, "variants": ["echo", "omit", "tamper", "other", "xid"]}, hist)
     bad = invariant(w, hist)
     if bad:
         ctx.fail(bad[0], bad[1], case)
